@@ -16,6 +16,7 @@
  *   E m tld s orc oa ob -> rc idn_rc f4f6fd lpart domain calls argok live   (is_<m>_email)
  *   K m tld s orc oa ob -> rc idn_rc f4f6fd            (the same address through the PUBLIC per-part validators,
  *                                                      composed as property C01 describes)
+ *   M s orc oa ob       -> ret hex(eav_errstr)             (default settings: eav_init; eav_setup; eav_is_email)
  *   J m mask tld rc     -> ret errcode                       (eav_is_email over a stub callback returning rc)
  *   A op op ...         -> one token per op                  (façade history, see run_history)
  */
@@ -282,6 +283,17 @@ int main (void)
                 eav_result_free (r);
                 printf (" %d %d %ld %ld\n", idn_calls, idn_argok, live, n_alloc - n_free - base);
             }
+        }
+        else if (k == 'M') {
+            eav_t e; eav_init (&e);
+            size_t n = unhex (f[1], a_buf);
+            o_rc = atoi (f[2]); unhex (f[3], b_buf); o_out = b_buf; o_buf = atoi (f[4]);
+            const char *at = strrchr (a_buf, '@');
+            o_expect = at ? at + 1 : NULL; idn_calls = 0; idn_argok = 1;
+            int st = eav_setup (&e);
+            int ret = st == 0 ? eav_is_email (&e, a_buf, n) : -1;
+            printf ("%d ", ret); puthex (eav_errstr (&e)); printf ("\n");
+            eav_free (&e);
         }
         else if (k == 'J') {
             eav_t e; eav_init (&e);
